@@ -158,7 +158,7 @@ func (w *modelW) step(l letter, k uint32) (string, uint32) {
 			// the import cannot be resolved and nothing runs.
 			return "import-missing", 0
 		}
-		// the new instance itself is never closed by the op (the host closes its caller, A)
+		// the new instance itself is never closed by the op (the host closes its caller A, or B by name)
 		_, class = w.call(nil, func() uint32 { return w.direct(t, l.Kind, k) })
 		if (l.Shape == ShStartFnA || l.Shape == ShStartFnB) && class == "exit:0" {
 			class = "ok" // documented: "_start" exiting with code zero is not an error
